@@ -184,3 +184,13 @@ def run(facts, rep, ctx):
     from .c15 import tb10
     tb10(facts, rep)
 
+
+
+_run_before_round5 = run
+
+
+def run(facts, rep, ctx):
+    """rules added after the fourth seeding round (rules/round5.py)"""
+    _run_before_round5(facts, rep, ctx)
+    from . import round5
+    round5.zr1(facts, rep)
